@@ -68,6 +68,12 @@ def check_nfa(ctx, ndef, tag):
                 ctx.violation(f"model determinisation failed: {m}", replay, confirmed=False)
             elif not mn and size_impl != m[1][0]:
                 problems.append(f"number of subset states {size_impl} differs from the reachable subset states {m[1][0]}")
+            elif mn:
+                ms = enc.dec_res(m[1][3])
+                if ms[0] != "ok":
+                    ctx.violation(f"model minimisation failed: {ms}", replay, confirmed=False)
+                elif size_impl != ms[1]:
+                    problems.append(f"minify=True result has {size_impl} states, the minimal DFA for this language has {ms[1]}")
             if rn and not mn and subset_states[0] == "ok":
                 want = {frozenset(s) for s in subset_states[1]}
                 got = {frozenset(st(q) for q in name) for name in obj.states}
